@@ -987,6 +987,48 @@ func runC19(c *Ctx) {
 					reqs[i] = c19ModelArgs(enc, pl.Edit)
 				}
 				modelOuts = c.Drv.AskBatch(reqs)
+				// instances of the property theorems on this program
+				var treqs [][]string
+				var tidx []int
+				for i, pl := range plan {
+					a := c19ModelArgs(enc, pl.Edit)
+					switch pl.Edit.Op {
+					case "renameCallable":
+						treqs = append(treqs, []string{"C19.thm", enc, pl.Edit.Callable, pl.Edit.NewName, "1", a[7]})
+						tidx = append(tidx, i)
+					case "removeUnused":
+						treqs = append(treqs, []string{"C19.thm", enc, "-", "-", a[6], a[7]})
+						tidx = append(tidx, i)
+					}
+				}
+				for k, rep := range c.Drv.AskBatch(treqs) {
+					pl := plan[tidx[k]]
+					f := map[string]string{}
+					for _, kv := range strings.Fields(rep) {
+						if j := strings.IndexByte(kv, '='); j > 0 {
+							f[kv[:j]] = kv[j+1:]
+						}
+					}
+					bad := ""
+					if pl.Edit.Op == "renameCallable" {
+						r.hist("theorem-instance:rename wf=" + f["wf"] + " fresh=" + f["fresh"])
+						if f["wf"] == "true" && f["fresh"] == "true" && (f["rt"] != "true" || f["cg"] != "true") {
+							bad = "rename_rename_id / rename_callgraph_partial"
+						}
+					} else {
+						r.hist("theorem-instance:removeLoop")
+						if f["dec"] != "true" || f["fix"] != "true" {
+							bad = "fixpoint_terminates"
+						}
+					}
+					if rep == "bad-op" {
+						bad = "driver could not evaluate the theorem instance"
+					}
+					if bad != "" {
+						r.violate(Violation{Kind: "correspondence", Key: "C19:theorem-instance", What: "an instance of " + bad + " evaluates to false in the model: " + rep,
+							Input: c19Replay{Program: cs.Src, Edit: pl.Edit}, Broken: bad})
+					}
+				}
 			}
 		}
 		baseEnc := ""
